@@ -136,6 +136,18 @@ PROPS["C07"] = {
               U("TestVerif_C07_LargeN", PROC, R(20000), R(500000, shards=4, timeout=600))],
 }
 
+PROPS["C16"] = {
+    "level": "fault_enumeration",
+    "rule": "per case one store directory and 2..6 cycles; in each cycle a child process (the test binary re-executed) stores 1..60 generated VAAs "
+            "(ids from a space of 3/8/40 so that overwrites occur, payloads 1 B..100 KB) and acknowledges each successful StoreSignedVAA on "
+            "stdout; it is SIGKILLed by itself right after the k-th acknowledgement, by the parent on reading the k-th acknowledgement, after a "
+            "0..300 ms delay, or exits without Close; the parent reopens the directory and checks every id acknowledged in any cycle; "
+            "non-trivial = a cycle killed with at least one acknowledgement and at least one write in flight",
+    "assumptions": ["SIGKILL of the process (page cache survives): the quantifier of the property, not power loss", "kill instants are sampled in real time, not enumerated",
+                    "in-flight = attempted after the last acknowledgement of that id"],
+    "units": [U("TestVerif_C16_KillCycles", "./pkg/db", R(12, shards=4, shrinktime="20s", timeout=600), R(150, shards=16, shrinktime="60s", timeout=1500))],
+}
+
 def setup():
     """MANIFEST.setup_cmd: create stubs and warm the build cache for every harness binary."""
     work = os.path.join(vdriver.WORKROOT, "setup-%d" % os.getpid())
